@@ -343,7 +343,7 @@ func fieldVal(d Draw, f string) string {
 }
 
 func (d Driver) Run(c *core.Ctx) error {
-	c.Rule = "scenario = drawing program (1-4 styled draws of lattice paths, optional image before a draw, integer view matrices) generated by TLC from spec/GState.tla: exhaustive for length <= 2 over the 64-style subset in the thorough tier (800 sampled pairs in the quick tier), RandomSubset for length 3-4 over the full style space; evaluations = (program, back-end) traces validated by Trace_GState + programs compared with the rasterizer; non-trivial = distinct programs with at least 2 draws in which two consecutive draws differ in a cached style field"
+	c.Rule = "scenario = drawing program (1-4 styled draws of lattice paths, optional image before a draw, integer view matrices) generated by TLC from spec/GState.tla: exhaustive for length <= 2 over the 88-style subset in the thorough tier (800 sampled pairs in the quick tier), RandomSubset for length 3-4 over the full style space; evaluations = (program, back-end) traces validated by Trace_GState + programs compared with the rasterizer; non-trivial = distinct programs with at least 2 draws in which two consecutive draws differ in a cached style field"
 	c.Assumptions = []string{
 		"PostScript has no opacity: alpha is not compared for the ps back-end (documented limitation of the back-end)",
 		"canvas scales dash lengths by the stroke width in every renderer (ScaleDash in rasterizer.go): requested dash = dash * width * view scale, although Context.SetDashes documents millimetres",
@@ -444,7 +444,7 @@ func (d Driver) Run(c *core.Ctx) error {
 	c.Count(0, nontrivial, 0)
 	c.SetExtra("programs", len(progs))
 	c.SetExtra("field_value_pairs_covered", len(pairs))
-	c.SetExtra("field_value_pairs_possible", 5*5+3*3+2*2+3*3+6*6+3*3+3*3+2*2+6*6+2*2)
+	c.SetExtra("field_value_pairs_possible", 5*5+4*4+2*2+3*3+6*6+3*3+3*3+2*2+6*6+2*2)
 	for i := 0; i < len(progs) && i < 3; i++ {
 		c.Sample(map[string]any{"program": progs[i*len(progs)/3].Prog, "requested_paints": progs[i*len(progs)/3].Paints})
 	}
